@@ -46,43 +46,13 @@ def load_groups():
     return groups
 
 
-def analysed(g, fns, direct, root):
-    wd = os.path.join(root, g["name"])
-    try:
-        gb = vf.build_group(g, wd, "quick")
-    except vf.GroupError as e:
-        return g["name"], None, str(e)[:200]
-    rc, out, _ = vf.sh("goto-instrument --show-symbol-table --json-ui %s" % gb, cwd=wd, timeout=300)
-    body_here = set()
-    try:
-        for it in json.loads(out[out.index("["):]):
-            for k, v in it.get("symbolTable", {}).items():
-                loc = v.get("location") or {}
-                if isinstance(loc, dict) and str(loc.get("file", "")).startswith(vf.SRC) and isinstance(v.get("value"), dict) and v["value"].get("id") == "compiled":
-                    body_here.add(k)
-    except Exception as e:
-        return g["name"], None, "symbol table: %s" % e
-    rc, out, _ = vf.sh("goto-instrument --reachable-call-graph %s" % gb, cwd=wd, timeout=300)
-    replaced = {r.split("/")[0] for r in g.get("replace", [])}
-    roots = set()
-    for line in out.splitlines():
-        m = re.match(r"(\S+) -> (\S+)$", line)
-        if m and m.group(1) not in fns and m.group(2) in body_here:
-            roots.add(m.group(2))
-    seen, todo = set(), [r for r in roots if r not in replaced]
-    while todo:
-        f = todo.pop()
-        if f in seen:
-            continue
-        seen.add(f)
-        for c in direct.get(f, ()):
-            if c in body_here and c not in replaced and c not in seen:
-                todo.append(c)
-    shutil.rmtree(wd, ignore_errors=True)
-    return g["name"], sorted(seen), ""
+_TABLES = {}
 
 
-def main():
+def tables():
+    """(functions, direct-call edges incl. constant dispatch tables) of the source tree, computed once per process"""
+    if "t" in _TABLES:
+        return _TABLES["t"]
     fns = repo_functions()
     names = set(fns)
     direct = {n: {c for c in re.findall(r"\b([A-Za-z_][A-Za-z0-9_]*)\s*\(", body) if c in names and c != n} for n, (f, body) in fns.items()}
@@ -98,11 +68,58 @@ def main():
             for n, (ff, body) in fns.items():
                 if ff == f and listed and re.search(r"\b%s\b" % re.escape(m.group(1)), body):
                     direct[n] |= listed - {n}
+    _TABLES["t"] = (fns, direct)
+    return _TABLES["t"]
+
+
+def analysed_in(g, wd, gb):
+    """real /repo functions whose body is part of the proof obligations of group g (linked goto binary gb in wd)"""
+    fns, direct = tables()
+    rc, out, _ = vf.sh("goto-instrument --show-symbol-table --json-ui %s" % gb, cwd=wd, timeout=300)
+    body_here = set()
+    for it in json.loads(out[out.index("["):]):
+        for k, v in it.get("symbolTable", {}).items():
+            loc = v.get("location") or {}
+            if isinstance(loc, dict) and str(loc.get("file", "")).startswith(vf.SRC) and isinstance(v.get("value"), dict) and v["value"].get("id") == "compiled":
+                body_here.add(k)
+    rc, out, _ = vf.sh("goto-instrument --reachable-call-graph %s" % gb, cwd=wd, timeout=300)
+    replaced = {r.split("/")[0] for r in g.get("replace", [])} | {f for l in g.get("stub_bodies", {}).values() for f in l}
+    roots = set()
+    for line in out.splitlines():
+        m = re.match(r"(\S+) -> (\S+)$", line)
+        if m and m.group(1) not in fns and m.group(2) in body_here:
+            roots.add(m.group(2))
+    seen, todo = set(), [r for r in roots if r not in replaced]
+    while todo:
+        f = todo.pop()
+        if f in seen:
+            continue
+        seen.add(f)
+        for c in direct.get(f, ()):
+            if c in body_here and c not in replaced and c not in seen:
+                todo.append(c)
+    return sorted(seen)
+
+
+def analysed(g, root):
+    wd = os.path.join(root, g["name"])
+    try:
+        gb = vf.build_group(g, wd, "quick")
+        lst = analysed_in(g, wd, gb)
+    except Exception as e:
+        return g["name"], None, str(e)[:200]
+    shutil.rmtree(wd, ignore_errors=True)
+    return g["name"], lst, ""
+
+
+def main():
+    fns, direct = tables()
+    names = set(fns)
     groups = load_groups()
     root = os.path.join(vf.VERIF, "build", "covmap_%d" % os.getpid())
     os.makedirs(root, exist_ok=True)
     with ThreadPoolExecutor(max_workers=14) as ex:
-        res = list(ex.map(lambda g: analysed(g, fns, direct, root), groups))
+        res = list(ex.map(lambda g: analysed(g, root), groups))
     shutil.rmtree(root, ignore_errors=True)
     cov = {}
     for name, lst, err in res:
